@@ -11,7 +11,7 @@ from groupdom import GroupDomain, Lin, R_ORDER
 from scen import ScenUnit, guarded
 from bvspec import X as BLS_X, X_ABS
 import units as U
-from scalarmul import mk, lin_eq, run_cut, norm
+from scalarmul import mk, lin_eq, run_cut, norm, sweep, guard_after
 
 P = ["C07"]
 
@@ -57,9 +57,9 @@ def gen_exp_powers(tu):
             init, cond, inc, body = for_parts(n)
             if init.get("kind"):
                 I_.exec(init, env)
+            i0 = sweep(I_, 64, 41)
             bits = [I_.path.decide(("cut", "bit%d" % j), (0, 1)) for j in range(4)]
             f1 = I_.path.decide(("cut", "found_one"), (0, 1))
-            i0 = 41
             env[loop_var(n)].v = i0
             env[names["found_one"]].v = f1
             for c, b in zip(sc.f["c"].items, bits):
@@ -71,7 +71,7 @@ def gen_exp_powers(tu):
             raise CutDone([("step: guard holds", "ok" if went else "fail", "", None),
                            lin_eq("step[bits=%s,found_one=%d]: acc' == acc^2 * prod t_j^(b_j)" % (bits, f1), this.val, want),
                            ("step: found_one'", "ok" if env[names["found_one"]].v == (1 if (f1 or any(bits)) else 0) else "fail", "", None),
-                           ("step: i' == i - 1", "ok" if env[loop_var(n)].v == i0 - 1 else "fail", "", None)] +
+                           ("step: i' == i - 1", "ok" if env[loop_var(n)].v == i0 - 1 else "fail", "", None), guard_after(I_, n, env, i0)] +
                           [lin_eq("frame: t[%d]" % j, e.val, A.scale(X_ABS ** j)) for j, e in enumerate(env[names["t"]].items)])
         I.loop_cuts[loop["id"]] = cut
         return run_cut(I, f, this, [a, sc])
@@ -100,9 +100,9 @@ def gen_nodiv(tu):
             if mode == "base":
                 raise CutDone([lin_eq("base: result == 1", this.val, Lin()), ("base: found_one == false", "ok" if env[names["found_one"]].v == 0 else "fail", "", None),
                                ("base: i == 255", "ok" if env[loop_var(n)].v == 255 else "fail", repr(env[loop_var(n)].v), None)])
+            i0 = sweep(I_, 256, 100)
             b = I_.path.decide(("cut", "bit"), (0, 1))
             f1 = I_.path.decide(("cut", "found_one"), (0, 1))
-            i0 = 100
             env[loop_var(n)].v = i0
             env[names["found_one"]].v = f1
             k.val = b << i0
@@ -112,7 +112,7 @@ def gen_nodiv(tu):
             raise CutDone([("step: guard holds", "ok" if went else "fail", "", None),
                            lin_eq("step[bit=%d,found_one=%d]: acc' == acc^2 * a^bit" % (b, f1), this.val, A.scale(2 * R + b)),
                            ("step: found_one'", "ok" if env[names["found_one"]].v == (1 if (f1 or b) else 0) else "fail", "", None),
-                           ("step: i' == i - 1", "ok" if env[loop_var(n)].v == i0 - 1 else "fail", "", None)])
+                           ("step: i' == i - 1", "ok" if env[loop_var(n)].v == i0 - 1 else "fail", "", None), guard_after(I_, n, env, i0)])
         I.loop_cuts[loop["id"]] = cut
         return run_cut(I, f, this, [a, k])
     yield "bits", guarded(run)
